@@ -31,6 +31,7 @@ func init() {
 		Rules: []core.Rule{
 			{ID: "C01-R1", Title: "every non-open route is registered behind an authenticating wrapper", Decides: "(a) every protected operation is refused without verification", Floor: 6, Run: c01r1},
 			{ID: "C01-R2", Title: "wrapper soundness: the wrapped handler is dominated by a verification predicate", Decides: "(a) refusal, (b) a refusal runs none of the handler", Floor: 1, Run: c01r2},
+			{ID: "C01-R4", Title: "the controller key used for verification is read from storage at that moment (shared with C18-R4)", Decides: "a key that is no longer stored does not verify", Floor: 2, Run: c01r4},
 			{ID: "C01-R3", Title: "only pair-verify installs a cryptographer, on the request's own session; session keys derive from the remote address", Decides: "(c) verification is per connection", Floor: 8, Run: c01r3},
 		},
 	})
@@ -520,4 +521,17 @@ func returnsOnly(f *ssa.Function, pred func(ssa.Value) bool) bool {
 		}
 	})
 	return ok && n > 0
+}
+
+func c01r4(c *core.Ctx) {
+	// pair-verify looks the controller up with Database.EntityWithName; that lookup must hit the storage every time
+	p := c.P
+	f := p.Func("hap/pair", "(*VerifyServerController).handlePairVerifyFinish")
+	if f == nil {
+		c.Undecided("handlePairVerifyFinish", token.NoPos, "not found")
+		return
+	}
+	n := len(core.FindCalls(f, func(i ssa.Instruction) bool { return core.IsInvoke(i, qDatabase, "EntityWithName") }))
+	c.Check(n > 0, "verify-looks-up-stored-key@"+fname(f), f.Pos(), "the controller's key is looked up with Database.EntityWithName at verification time", "pair-verify does not look the controller key up in the database")
+	c18r4(c)
 }
